@@ -11,6 +11,7 @@ From RZ.lib Require Import BV.
 From RZ.sem Require Import RzIL CBody CSem Diff.
 From RZ.model Require Import Ast Types OpTables Lower Guards.
 From RZ.gen Require Import Resources.
+From RZ.proofs Require Import SortSound TmpDef.
 Import ListNotations.
 Local Open Scope string_scope.
 Local Open Scope Z_scope.
@@ -32,14 +33,15 @@ Fixpoint decl_sorts_s (s : cstmt) : lenv :=
 with decl_sorts_ss (l : cstmts) : lenv := match l with SNil => [] | SCons s t => decl_sorts_s s ++ decl_sorts_ss t end.
 Definition special_sorts : lenv := [("EA", SBv 32); ("i", SBv 32); ("j", SBv 32); ("k", SBv 32); ("ret_val", SBv 64)]%N.
 
-(* per case: (guard flags, #states on which C is defined, first failing (seed, kind), well-sorted, wf_body, linear);
+(* per case: (guard flags, #states on which C is defined, first failing (seed, kind), temporaries defined before use, well-sorted, wf_body, linear);
    None = real body does not denote *)
-Definition probe (c : cstmts * body) : option (N * nat * option (Z * N) * bool * bool * bool) :=
+Definition probe (c : cstmts * body) : option (N * nat * option (Z * N) * bool * bool * bool * bool) :=
   let '(p, b) := c in
   match denote b with
   | None => None
   | Some e => Some (guard_flags p, count_defined xi csub_table ilsub_table {fuel} p e seeds,
                     first_bad xi csub_table ilsub_table {fuel} p e seeds,
+                    tmp_def (rw_of (regs_ss xi p)) (decl_sorts_ss p ++ special_sorts) e,
                     match wf_effect (rw_of (regs_ss xi p)) (decl_sorts_ss p ++ special_sorts) e with Some _ => true | None => false end,
                     wf_body b, linear b)
   end.
@@ -105,7 +107,7 @@ def parse_option_list(v: str):
         bools = [x == "true" for x in re.findall(r"\b(true|false)\b", p)]
         nums = [int(x) for x in re.findall(r"-?\d+", p)]
         bad = (nums[2], nums[3]) if "Some (" in p[5:] else None
-        out.append({"flags": nums[0], "defined": nums[1], "bad": bad, "sorted": bools[-3], "wf": bools[-2], "linear": bools[-1]})
+        out.append({"flags": nums[0], "defined": nums[1], "bad": bad, "tmpdef": bools[-4], "sorted": bools[-3], "wf": bools[-2], "linear": bools[-1]})
     return out
 
 
@@ -193,7 +195,7 @@ def symptom_classes(off: dict) -> set[str]:
             # classify by the shape of the name: operand handle, register / immediate variable, other
             if name.endswith("_op"):
                 out.add("wf:undeclared-operand-handle")
-            elif re.match(r"^([A-Z][a-z]{1,2}(_new)?|[a-z]|[A-Z]\d+(_new)?|[a-z0-9_]+)$", name):
+            elif re.match(r"^([A-Z][a-z]{1,2}(_new)?|[A-Za-z]|[A-Z]\d+(_new)?|[a-z0-9_]+)$", name):
                 out.add("wf:undeclared-register-or-immediate-variable")
             else:
                 out.add("wf:undeclared-other")
